@@ -2,6 +2,7 @@ package main
 
 import (
 	"fmt"
+	"go/token"
 	"go/types"
 	"regexp"
 	"strings"
@@ -14,10 +15,11 @@ type callArgs struct {
 	argTs []types.Type
 	recv  string
 	recvT types.Type
+	st    *state // the state the arguments were captured in
 }
 
 func (g *fnGen) captureArgs(st *state, cc *ssa.CallCommon) *callArgs {
-	ca := &callArgs{}
+	ca := &callArgs{st: st}
 	if cc.IsInvoke() {
 		ca.recv = g.val(st, cc.Value)
 		ca.recvT = cc.Value.Type()
@@ -106,7 +108,57 @@ func (g *fnGen) contractFor(cc *ssa.CallCommon) (ct *FuncContract, calleeName st
 		}
 		return nil, calleeName, calleePkg, instSig
 	}
+	// a call through a local variable that holds one closure literal (`probe := func(...) {...}; probe(x)`)
+	// is a call of that closure: its contract (`func Outer$N`) governs it
+	if mc := closureOf(cc.Value); mc != nil {
+		if f, ok := mc.Fn.(*ssa.Function); ok {
+			calleeName = f.String()
+			if g.typesPkgOfFn() != nil {
+				calleePkg = g.typesPkgOfFn()
+			}
+			if c, ok := g.P.cs.Funcs[calleeName]; ok {
+				return c, calleeName, calleePkg, f.Signature
+			}
+			return nil, calleeName, calleePkg, f.Signature
+		}
+	}
 	return nil, "dynamic call", nil, cc.Signature()
+}
+
+// closureOf: the closure literal a called value denotes — the MakeClosure itself, or a load from a local
+// that is assigned exactly once, with a closure literal.
+func closureOf(v ssa.Value) *ssa.MakeClosure {
+	switch x := v.(type) {
+	case *ssa.MakeClosure:
+		return x
+	case *ssa.UnOp:
+		if x.Op != token.MUL {
+			return nil
+		}
+		al, ok := x.X.(*ssa.Alloc)
+		if !ok || al.Referrers() == nil {
+			return nil
+		}
+		var mc *ssa.MakeClosure
+		for _, ref := range *al.Referrers() {
+			switch r := ref.(type) {
+			case *ssa.Store:
+				if r.Addr != al {
+					return nil // the address escapes into memory
+				}
+				m, ok := r.Val.(*ssa.MakeClosure)
+				if !ok || mc != nil {
+					return nil
+				}
+				mc = m
+			case *ssa.UnOp, *ssa.DebugRef:
+			default:
+				return nil
+			}
+		}
+		return mc
+	}
+	return nil
 }
 
 func (g *fnGen) isPure(cc *ssa.CallCommon, name string) bool {
@@ -167,6 +219,27 @@ func (g *fnGen) paramBindings(ct *FuncContract, cc *ssa.CallCommon, sig *types.S
 	}
 	if sig.Recv() != nil && !cc.IsInvoke() && len(ca.args) > 0 {
 		names["self"] = binding{ca.args[0], ptypes[0]}
+	}
+	// a closure literal called through a local: its captured variables, by name, at their value at the
+	// call — only for closures whose contract says `assigns nothing` (the value cannot change under the call)
+	if ct != nil && ct.HasAssigns && len(ct.Assigns) == 0 && ca.st != nil {
+		if mc := closureOf(cc.Value); mc != nil {
+			if f, ok := mc.Fn.(*ssa.Function); ok {
+				for i, fv := range f.FreeVars {
+					if i >= len(mc.Bindings) {
+						break
+					}
+					if _, clash := names[fv.Name()]; clash {
+						continue
+					}
+					a := g.resolveAddr(ca.st, mc.Bindings[i])
+					if a == nil || a.isField || a.isElem || a.sharedDecl != nil {
+						continue
+					}
+					names[fv.Name()] = binding{g.load(ca.st, a, nil), deref(fv.Type())}
+				}
+			}
+		}
 	}
 	return names
 }
